@@ -301,6 +301,16 @@ def rule_stack(rep, res, entry=None, sym="bs"):
                   config=res.config,
                   msg=f"the tail `[{j_}:]` is filled with an extremum of the real rows `[:{k_}]`, but the two boundaries differ: real rows "
                       f"between them are overwritten with another row's value (or padded rows keep their own)")
+    # zero padding of the last batch goes BEHIND the real rows (the write-back takes the leading rows of the stacked solution)
+    for ev in res.events("np_pad"):
+        b_ = ev.d["before"]
+        if not any("parallel" in q or "batched" in q or "ravel_last" in q for q in ev.path) and not ev.fn.module.name.endswith("parallel"):
+            continue
+        st = True if (b_.known and b_.const == 0) else (False if not b_.known or b_.const else None)
+        rep.check("R-STACK", "padding rows follow the real rows of the last batch", st, where=ev.loc, construct=ev.text()[:80], entry=entry,
+                  config=res.config,
+                  msg="np.pad puts the zero rows IN FRONT of the remaining samples: the rows copied back from the stacked solution (the leading "
+                      "ones) are then the solutions of the padding, and the real samples of the last batch are lost")
     # a per-sample summation written as a constant matrix: the batch index must be the MAJOR index of the summed (sample-major) vector
     for ev in res.events("group_sum_matrix"):
         g = ev.d["groups"]
@@ -379,6 +389,24 @@ def rule_every_iteration_solves(rep, res, entry=None):
                       construct=f"{norm_text(sv.node)[:40]} under `{inner[-1][0][:60]}`", entry=entry, config=res.config,
                       msg=f"problem.solve() is skipped under a test that depends on {sorted(gdeps)} only, while the parameters of the batch are also "
                           f"computed from {missing}: a batch with different {missing} silently inherits the previous batch's solution")
+        # … and no batch's rows are filled with a stand-in constant instead of the solution (a whole batch marked NaN / 0 because ONE of
+        # its rows is infeasible makes the feasible rows depend on which rows share their batch)
+        for st in res.events("inplace"):
+            if not (st.loops and st.loops[-1] == loop and st.fn is sv.fn and st.d.get("how") == "subscript"):
+                continue
+            v = st.d["value"]
+            if sol_ids(v) or not (v.known or v.tag("extconst") is not None):
+                continue
+            if not st.d["target"].tag("zero_init") and st.d["target"].tag("kind") != "ndarray":
+                continue
+            und = [g[0] for g in st.guards if len(g) > 3 and not g[3] and getattr(g[2], "lineno", 0) > loop[1]]
+            if not und:
+                continue
+            rep.violated("R-TYPESTATE", "every batch of the solve loop is solved", where=st.loc, construct=st.text()[:80], entry=entry,
+                         config=res.config,
+                         msg=f"under the guard {und} the rows of the whole batch are filled with a constant instead of the solver's result: rows "
+                             f"that are feasible on their own lose their solution when they share a batch with an infeasible row — the result "
+                             f"depends on the batch size")
         if not skips:
             rep.holds("R-TYPESTATE", "every batch of the solve loop is solved", where=sv.loc, construct=norm_text(sv.node)[:60], entry=entry,
                       config=res.config)
@@ -906,6 +934,39 @@ def rule_block_cover(rep, res, entry=None, rule="R-COVER"):
                                  entry=entry, config=res.config,
                                  msg=f"`{buf}` is filled in blocks of {block} over range({norm_text(st.iter.args[0])}): only the full blocks are visited, "
                                      f"the trailing (n mod {block}) entries keep their initial value and silently take part in the following reduction")
+    # step form: `for s in range(0, STOP, k): buf[s : s + k] = …` covers everything iff STOP is the full extent (the last slice is
+    # clipped); a STOP shortened by the block size (`n - k + 1`, `n - k`) visits only the full blocks
+    for fn in sorted(fns, key=lambda f: f.qual):
+        for st in _ast.walk(fn.node):
+            if not (isinstance(st, _ast.For) and isinstance(st.target, _ast.Name) and isinstance(st.iter, _ast.Call)
+                    and isinstance(st.iter.func, _ast.Name) and st.iter.func.id == "range" and len(st.iter.args) == 3):
+                continue
+            start, stop, step = st.iter.args
+            if not (isinstance(start, _ast.Constant) and start.value == 0):
+                continue
+            block = norm_text(step)
+            if isinstance(step, _ast.Constant) or not isinstance(stop, _ast.BinOp):
+                continue
+            subs_block = any(isinstance(n, _ast.BinOp) and isinstance(n.op, _ast.Sub) and block in norm_text(n.right) for n in _ast.walk(stop))
+            if not subs_block:
+                continue
+            i = st.target.id
+            stored = set()
+            for n in _ast.walk(st):
+                if isinstance(n, _ast.Subscript) and isinstance(n.ctx, _ast.Store) and isinstance(n.value, _ast.Name):
+                    sl = n.slice.elts[-1] if isinstance(n.slice, _ast.Tuple) and n.slice.elts else n.slice
+                    if isinstance(sl, _ast.Slice) and sl.lower is not None and sl.upper is not None and norm_text(sl.lower) == i \
+                            and block in norm_text(sl.upper):
+                        stored.add(n.value.id)
+            for buf in sorted(stored):
+                k = (fn.qual, st.lineno, buf)
+                if k in seen:
+                    continue
+                seen.add(k)
+                rep.violated(rule, "block-wise filling covers the whole buffer", where=fn.loc(st), construct=norm_text(st.iter)[:80] + f" → {buf}[block]",
+                             entry=entry, config=res.config,
+                             msg=f"`{buf}` is filled in blocks of {block} over {norm_text(st.iter)}: the stop is shortened by the block size, so the "
+                                 f"trailing partial block is never visited and its entries keep their initial value")
     return len(seen)
 
 
@@ -1063,3 +1124,37 @@ def rule_pair_orientation(rep, res, entry=None, rule="R-COVER"):
                       msg="pairs are enumerated once each (combinations(…, 2)) and a pair is skipped when its members are in the 'wrong' order: "
                           "pairs that arrive in that order are never considered (with ordered pairs the test only picks the orientation)")
     return n
+
+
+def rule_alias(rep, model, mod, cls, alias, target, entry=None, rule="R-FORWARD"):
+    """an alias method (`def in_gamut(self, …): return self.in_hull(…)`) hands on EVERYTHING it accepts: `*args, **kwargs` as they are,
+    or every named parameter of its own signature under the same name (or in the target's position)."""
+    fn, tg = model.method(mod, cls, alias), model.method(mod, cls, target)
+    entry = entry or f"{cls}.{alias}"
+    if fn is None or tg is None:
+        rep.undecided(rule, f"alias {alias} → {target}", where=f"{mod.replace('.', '/')}.py", construct=f"{alias} / {target}", entry=entry)
+        return
+    calls = [n for n in ast.walk(fn.node) if isinstance(n, ast.Call) and isinstance(n.func, ast.Attribute) and n.func.attr == target
+             and isinstance(n.func.value, ast.Name) and n.func.value.id == "self"]
+    if not calls:
+        rep.violated(rule, f"alias {alias} forwards to {target}", where=fn.loc(), construct=f"def {alias}", entry=entry,
+                     msg=f"the alias does not call self.{target}")
+        return
+    a = fn.node.args
+    own = [x.arg for x in a.posonlyargs + a.args if x.arg != "self"] + [x.arg for x in a.kwonlyargs]
+    tparams = [p for p in tg.params if p != "self"]
+    for c in calls:
+        star = any(isinstance(x, ast.Starred) for x in c.args)
+        dstar = any(k.arg is None for k in c.keywords)
+        passed = set()
+        for i, x in enumerate(c.args):
+            if isinstance(x, ast.Name) and i < len(tparams) and not isinstance(x, ast.Starred):
+                passed.add(x.id)
+        for k in c.keywords:
+            if k.arg is not None and isinstance(k.value, ast.Name):
+                passed.add(k.value.id)
+        missing = [p for p in own if p not in passed]
+        ok = (not missing) and (a.vararg is None or star) and (a.kwarg is None or dstar)
+        rep.check(rule, f"alias {alias} forwards everything it accepts to {target}", ok, where=fn.loc(c), construct=norm_text(c)[:80], entry=entry,
+                  msg=f"the alias accepts {missing or ['*args/**kwargs']} but does not hand {'them' if len(missing) != 1 else 'it'} on: the target's "
+                      f"default is used whatever the caller passes (e.g. relative=False is silently ignored)")
